@@ -209,6 +209,25 @@ CLAIMED["C16"] = {
     "design_ref": "DESIGN.md section 8, C16",
 }
 
+CLAIMED["C15"] = {
+    "text": "The comparison (validate_fields! + every validate_other + StatsCollector::validate_other_stats) is modelled over lists the translator "
+            "re-reads from the sources on every run: declared fields of the 7 statistics structs, macro argument lists, the struct literals "
+            "rebuilt from `other` (field by field, accessors resolved), delegations to sub-structs, serde attributes. C15_field_lists_complete "
+            "(`all_ok = true`, computed in Coq from those lists: every field is compared against the same field or delegated; only is_finalized is "
+            "outside). C15_no_mismatch_iff_same_statistics: for EVERY leaf type with a correct equality, EVERY two trees of the right shape, no "
+            "mismatch is reported IFF all collected statistics agree (ALPIDE part only when collected) -- drift detection for every leaf at once "
+            "(C15_detects, C15_leaf_*) and acceptance (C15_reflexive). C15_mismatch_exit (mismatch -> any-errors flag -> exit N, flag fact "
+            "regenerated), C15_finalized_first, C15_file_replaced, C15_roundtrip (any round-tripping serialiser, any previous file content), "
+            "C15_same_input_any_schedule (with C05: the later run's tree under any thread schedule matches the earlier one). Tied to the code by "
+            "the rebuilt binary: write JSON/TOML over an old longer file and fresh, re-read with -i, perturb EVERY leaf one at a time (reported "
+            "field names in order = model's prediction via the extracted comparison), single-field input changes.",
+    "note": "Trusted: Coq kernel; gen/facts_stats.py; binary; extraction + driver; serde_json/toml round trip of the concrete tree (premise of "
+            "C15_roundtrip, exercised not proved); PartialEq of leaf types = equality; the check's TOML writer. A harmless reshaping of "
+            "validate_other that the translator cannot read falls back to snapshot lists (reported in evidence) and is then covered by the leaf sweep only.",
+    "technique": "Coq proof (generic iff-theorem over regenerated field lists decided by computation; refinement to C05 collector model) + CLI correspondence perturbing every leaf",
+    "design_ref": "DESIGN.md section 8, C15",
+}
+
 ALL = ["C%02d" % i for i in range(1, 21)]
 PENDING_REASON = "not claimed yet: the model/proof for this property is still under construction in this development (see DESIGN.md section 12 build order); no check is registered until its theorem file compiles without admits and its correspondence stream runs"
 
